@@ -204,11 +204,13 @@ func (e *SpecEnv) eval(x Expr, cur, old *State) Val {
 			}
 			e.bound[b.Name] = scalar(t, q)
 			vars = append(vars, q)
+			e.f.vc.binders = append(e.f.vc.binders, q.S)
 			_ = guards
 		}
 		e.qn++
 		body := e.eval(n.Body, cur, old).one()
 		e.qn--
+		e.f.vc.binders = e.f.vc.binders[:len(e.f.vc.binders)-len(n.Vars)]
 		for _, b := range n.Vars {
 			if o, ok := saved[b.Name]; ok {
 				e.bound[b.Name] = o
